@@ -18,3 +18,5 @@ func (s *Sidecar) VerifBitmap() []byte { return s.MarshalBitmap() }
 
 // VerifFileKey exposes the file key (hash of id or rel_path) used on the wire.
 func VerifFileKey(it manifest.FileItem) uint64 { return fileKeyForItem(it) }
+
+func VerifReadControlHeader(s Stream) (manifest.Manifest, error) { return readControlHeader(s) }
